@@ -167,7 +167,11 @@ def shrink(args, fails):
                 cur = c
                 improved = True
                 break
-    return [b"".join(a) for a in cur]
+    out = [b"".join(a) for a in cur]
+    # every reported minimal case must fail when evaluated on its own; otherwise keep the original case
+    if fails([out]) == [True]:
+        return out
+    return list(args)
 
 
 def impl_roundtrip_fails(arglists):
@@ -213,47 +217,87 @@ BASH = shutil.which("bash") or "/bin/bash"
 BASH_ENV = {"HOME": "/tildehome", "PATH": "/nonexistent", "ENV": "", "BASH_ENV": ""}
 
 
+def _bash_records(ctx, script, cwd, env, part):
+    """run a script, return {fragment index: words} for the records `f` printed"""
+    path = os.path.join(ctx.scratch, "bash_main.sh")
+    with open(path, "wb") as fh:
+        fh.write(script)
+    p = subprocess.run([BASH, "--norc", "--noprofile", path], cwd=cwd, env=env, stdout=subprocess.PIPE,
+                       stderr=subprocess.PIPE, timeout=600)
+    toks = p.stdout.split(b"\0")
+    inpart = set(part)
+    got, k, dup = {}, 0, False
+    while k < len(toks) - 1:
+        try:
+            n = int(toks[k])
+        except ValueError:
+            break
+        if n < 0 or k + 1 + n > len(toks) - 1:
+            break
+        rec = toks[k + 1:k + 1 + n]
+        k += 1 + n
+        if rec and rec[0].startswith(b"@@") and rec[0].endswith(b"@@") and rec[0][2:-2].isdigit():
+            idx = int(rec[0][2:-2])
+            if idx in inpart:
+                if idx in got:
+                    dup = True
+                else:
+                    got[idx] = rec[1:]
+    if dup or k < len(toks) - 1:
+        got.pop(max(got), None) if got else None      # unparsable tail / duplicate: do not trust the batch as complete
+    return got
+
+
 def run_bash(ctx, frags, locale="C.UTF-8"):
-    """Run `f <frag>` for every fragment (bytes) in batched bash scripts; returns for each fragment the list
-    of words bash passed (bytes) or None (syntax error / bash died on it)."""
+    """Evaluate `f @@i@@ <frag>` for every fragment (bytes) in real bash; returns for each fragment the list of
+    words bash passed (bytes) or None (syntax error / no call of f / bash died on it).
+    Every fragment lives in its own sourced file, so an unbalanced quote or a syntax error cannot swallow or
+    shift the records of its neighbours, and every record carries the index of its fragment."""
     cwd = os.path.join(ctx.scratch, "bashcwd")
     if not os.path.isdir(cwd):
         os.makedirs(cwd)
         for n in ("a", "aa", "b"):
             open(os.path.join(cwd, n), "w").close()
+    fdir = os.path.join(ctx.scratch, "bashfrag")
+    os.makedirs(fdir, exist_ok=True)
     res = [None] * len(frags)
     todo = list(range(len(frags)))
     batch = 400
     rounds = 0
+    env = dict(BASH_ENV)
+    env["LC_ALL"] = locale
     while todo:
         rounds += 1
         part, todo = todo[:batch], todo[batch:]
-        script = b"f() { printf '%s\\0' \"$#\" \"$@\"; }\n" + b"".join(b"f " + frags[i] + b"\n" for i in part)
-        path = os.path.join(ctx.scratch, "bash_%d.sh" % rounds)
-        with open(path, "wb") as fh:
-            fh.write(script)
-        env = dict(BASH_ENV)
-        env["LC_ALL"] = locale
-        p = subprocess.run([BASH, "--norc", "--noprofile", path], cwd=cwd, env=env, stdout=subprocess.PIPE,
-                           stderr=subprocess.PIPE, timeout=600)
-        toks = p.stdout.split(b"\0")
-        k, done = 0, 0
+        # fast path: all fragments of the batch as lines of one script.  Records carry their index, so nothing can
+        # be misattributed; if any index is missing (a syntax error, an open quote swallowing the following lines)
+        # the whole batch is redone with one sourced file per fragment, which confines such damage.
+        script = b"f() { printf '%s\\0' \"$#\" \"$@\"; }\n" + b"".join(b"f @@%d@@ " % i + frags[i] + b"\n" for i in part)
+        fast = _bash_records(ctx, script, cwd, env, part)
+        if len(fast) == len(part):
+            for i in part:
+                res[i] = fast[i]
+            continue
         for i in part:
-            if k >= len(toks) - 1:
-                break
-            try:
-                n = int(toks[k])
-            except ValueError:
-                break
-            if k + 1 + n > len(toks) - 1:
-                break
-            res[i] = toks[k + 1:k + 1 + n]
-            k += 1 + n
-            done += 1
-        if done < len(part):
-            # the fragment after the last complete record broke the script: leave it None, redo the rest
-            todo = part[done + 1:] + todo
-        os.remove(path)
+            with open(os.path.join(fdir, "%d.sh" % i), "wb") as fh:
+                fh.write(b"f @@%d@@ " % i + frags[i] + b"\n")
+        script = b"f() { printf '%s\\0' \"$#\" \"$@\"; }\n" + b"".join(b". %s/%d.sh\n" % (fdir.encode(), i) for i in part)
+        got = _bash_records(ctx, script, cwd, env, part)
+        pos_of = {i: n for n, i in enumerate(part)}
+        last = max((pos_of[i] for i in got), default=-1)
+        requeue, first_after = [], True
+        for i in part:
+            if i in got:
+                res[i] = got[i]
+            elif pos_of[i] < last:
+                res[i] = None                      # the script went on after it: this fragment produced no record
+            elif first_after:
+                res[i] = None                      # the script stopped here
+                first_after = False
+            else:
+                requeue.append(i)
+            os.remove(os.path.join(fdir, "%d.sh" % i))
+        todo = requeue + todo
     return res
 
 
@@ -472,6 +516,65 @@ def run(ctx):
                     nb += 1
                     if nb == 1:
                         mismatches.append(("b " + field(f), None, "real-bash " + repr(g), m))
+
+    # --- Path::quote: the second quoting entry point (dry-run scripts, logs).  Path::from normalises the bytes
+    #     (std::path components, modelled by path_norm and compared in C10); the quoted form must be the model's
+    #     quote of the NORMAL FORM, and split / real bash must give back the normal form.
+    if lines is None:
+        r4 = ctx.rng.fork()
+        pq_in = [b""] + strings_upto(ctx.pick(3, 4))
+        for _ in range(ctx.pick(3000, 60000)):
+            parts = [rand_string(r4, r4.choice([1, 2, 4, 20])).replace(b"/", b"_") for _ in range(1 + r4.below(3))]
+            a = r4.choice([b"", b"/", b"./", b"../"]) + r4.choice([b"/", b"//", b"/./", b"/../"]).join(parts) + r4.choice([b"", b"", b"/", b"/."])
+            pq_in.append(a)
+    else:
+        pq_in = [unfield(l.split()[1]) for l in lines if l.startswith("pqs ") and len(l.split()) > 1]
+
+    def pq_eval(inputs, with_bash=True, loc="C.UTF-8"):
+        """(impl lines, split failures, bash failures) of Path::quote on the implementation alone"""
+        outs = core.run_lines_parallel(TXT, ["pqs " + field(a) for a in inputs])
+        sfail, quoted = [], []
+        for a, o in zip(inputs, outs):
+            ps = o.split(" | ")
+            ok = len(ps) == 3 and ps[2] == "ok " + ps[0]
+            sfail.append(not ok)
+            quoted.append((unfield(ps[0]), unfield(ps[1])) if len(ps) == 3 else None)
+        bfail = [False] * len(inputs)
+        if with_bash:
+            idx = [k for k, q in enumerate(quoted) if q is not None]
+            got = run_bash(ctx, [quoted[k][1] for k in idx], loc)
+            for k, g in zip(idx, got):
+                bfail[k] = (g != [quoted[k][0]])
+        return outs, sfail, bfail, quoted
+
+    if pq_in:
+        plines = ["pqs " + field(a) for a in pq_in]
+        pimpl, sfail, bfail, quoted = pq_eval(pq_in)
+        pmod = core.run_lines_parallel(model, plines)
+        for a, l, i, m, sf, bf in zip(pq_in, plines, pimpl, pmod, sfail, bfail):
+            ctx.count(2)
+            ctx.bump("command", "pqs")
+            ctx.bump("path_quote_input", "needs_normalisation" if (b"//" in a or b"/." in a or a.endswith(b"/") and len(a) > 1 or a == b"") else "normal_form")
+            ctx.distinct(l, i.split(" | ")[0] != i.split(" | ")[1] if " | " in i else True)
+            if i != m:
+                mismatches.append((l, None, i, m))
+        for kind, flags, what in (("path_quote_split_roundtrip", sfail, "arg::split"), ("path_quote_bash_roundtrip", bfail, "bash")):
+            bad = [a for a, f in zip(pq_in, flags) if f]
+            if not bad:
+                continue
+            a0 = min(bad, key=len)
+            sel = 1 if kind.endswith("split_roundtrip") else 2
+            small = shrink([a0], lambda als: [pq_eval([al[0] if al else b""], with_bash=(sel == 2))[sel][0] for al in als])
+            o = core.run_lines(TXT, ["pqs " + field(small[0])])[0]
+            ps = o.split(" | ")
+            gb = run_bash(ctx, [unfield(ps[1])])[0] if len(ps) == 3 else None
+            ctx.violation({"kind": kind},
+                          "Path::from(%r).quote() = %r is decoded by %s to %s, not to the path %r (%d failing paths this run)"
+                          % (small[0], unfield(ps[1]) if len(ps) == 3 else o, what, ps[2] if sel == 1 and len(ps) == 3 else repr(gb),
+                             unfield(ps[0]) if len(ps) == 3 else small[0], len(bad)),
+                          {"path": list(small[0]), "lines": ["pqs " + field(small[0])], "impl": o,
+                           "bash_words": None if gb is None else [list(x) for x in gb],
+                           "replay_cmd": "echo 'pqs %s' | %s" % (field(small[0]), TXT)}, found_input=True)
 
     # --- correspondence failures
     if mismatches or getattr(ctx, "pending", False):
